@@ -81,22 +81,29 @@ Definition f12_pk : list Z :=
 Lemma f12_accepted : verify_signature f12_msg f12_sig f12_pk = true.
 Proof. vm_cast_no_check (eq_refl true). Qed.
 
+(* whatever VerifySignature accepts, VerifyPubKeySignedHash accepts (same tests) *)
+Lemma verify_signature_vpsh msg sg pk :
+  verify_signature msg sg pk = true -> verify_pubkey_signed_hash pk sg msg = SigOK.
+Proof.
+  intros H. unfold verify_pubkey_signed_hash, pubkey_from_sig.
+  pose proof H as H'. unfold verify_signature in H'.
+  apply andb_true_iff in H' as [H1 H2]. apply andb_true_iff in H1 as [H0 H1].
+  destruct (recover_pubkey msg sg) as [pk'|] eqn:E; [|discriminate H2].
+  assert (E2 : bytes_eqb pk' pk = true).
+  { clear - H2. revert pk H2. induction pk' as [|a l IH]; intros [|b q]; cbn [bytes_eqb]; try discriminate; auto.
+    intros H. apply andb_true_iff in H as [A B]. apply andb_true_iff. split; [rewrite Z.eqb_sym; exact A|]. apply IH. exact B. }
+  rewrite E2. cbn [negb]. rewrite H1. cbn [negb]. rewrite H. reflexivity.
+Qed.
+
+Lemma f12_s : sig_s f12_sig = halfOrder + 1.
+Proof. unfold f12_sig. apply sig_bytes_s. vm_compute. split; [intro; discriminate|reflexivity]. Qed.
+
 Lemma high_s_accepted_refuted :
   exists msg sg pk,
     verify_signature msg sg pk = true /\ verify_pubkey_signed_hash pk sg msg = SigOK /\
     halfOrder < sig_s sg < n /\ sig_s sg = halfOrder + 1.
 Proof.
   exists f12_msg, f12_sig, f12_pk.
-  pose proof f12_accepted as H.
-  split; [exact H|]. split.
-  - unfold verify_pubkey_signed_hash, pubkey_from_sig.
-    unfold verify_signature in H. apply andb_true_iff in H as [H1 H2]. apply andb_true_iff in H1 as [H0 H1].
-    destruct (recover_pubkey f12_msg f12_sig) as [pk'|] eqn:E; [|discriminate H2].
-    assert (E2 : bytes_eqb pk' f12_pk = true).
-    { clear - H2. revert H2. generalize f12_pk. induction pk' as [|a l IH]; intros [|b q]; cbn [bytes_eqb]; try discriminate; auto.
-      intros H. apply andb_true_iff in H as [A B]. apply andb_true_iff. split; [rewrite Z.eqb_sym; exact A|]. apply IH. exact B. }
-    rewrite E2. cbn [negb]. rewrite H1. cbn [negb].
-    unfold verify_signature. rewrite H0, H1, E, H2. reflexivity.
-  - unfold f12_sig. rewrite sig_bytes_s by (vm_compute; split; [intro; discriminate|reflexivity]).
-    pose proof n_half. assert (0 < halfOrder) by reflexivity. lia.
+  split; [exact f12_accepted|]. split; [exact (verify_signature_vpsh _ _ _ f12_accepted)|].
+  rewrite f12_s. pose proof n_half. assert (0 < halfOrder) by reflexivity. lia.
 Qed.
